@@ -286,6 +286,9 @@ def fresh_of_type(st, name, ty, inputs=None):
         if inputs is not None:
             inputs.append((name, t, v))
         return v
+    elif k == "da":
+        from .lazy import SData
+        v = SData(fresh_of_type(st, name, t[1]["dataarray"], None), dims=t[1].get("dims"), name=name)
     elif k == "ds":
         from .lazy import SDs, SData
         spec = t[1]
